@@ -5,7 +5,7 @@
 (* observations of each step: what the service handed to the transport (`hin`), the events on the  *)
 (* event stream, the routing table, the ban list and the local record.                             *)
 (* STRICT: the TALK part is additionally compared with Talk.tla step by step.                      *)
-EXTENDS Talk, TLC, Json, IOUtils, SequencesExt, FiniteSetsExt
+EXTENDS Talk, NodesExchange, TLC, Json, IOUtils, SequencesExt, FiniteSetsExt
 CONSTANT STRICT
 Rec == ndJsonDeserialize(IOEnv.TRACE)
 VARIABLES l, t, m, viols, sr
@@ -28,7 +28,7 @@ M0 == [cfg |-> [mode |-> "ip4", filter |-> "all", maxnodes |-> 16, vote_min |-> 
        reqs |-> <<>>,       \* requests the service sent: [rid, to, ds (for FINDNODE), lookup (BOOLEAN)]
        offdist |-> {},      \* responders that returned a record at a distance that was not requested
        votes |-> <<>>,      \* latest PONG vote per eligible voter: [voter, sock]
-       npk |-> <<>>]        \* NODES packets received per request: [rid, n]
+       xs |-> <<>>]         \* FINDNODE exchanges: [rid, to, x] with x the request state of NodesExchange.tla, fed with the observed packets
 Init == l = 1 /\ t = T0 /\ m = M0 /\ viols = <<>> /\ sr = [t |-> T0, ret |-> "ok", out |-> <<>>]
 
 \* ------------------------------------------------------------------ shapes of records  "<peer>:<seq>:<shape>"
@@ -45,6 +45,12 @@ Contactable(mode, shape) ==
 PassesFilter(cfg, shape) == cfg.filter = "all" \/ shape # "mark"
 
 \* ------------------------------------------------------------------ ledger
+\* feeding the packets of one step into the request state; `acc` collects what the step must report
+XA0(ds) == [k \in DOMAIN X0(ds) \cup {"acc"} |-> IF k = "acc" THEN <<>> ELSE X0(ds)[k]]
+RECURSIVE FoldPk(_, _, _)
+FoldPk(x, pks, maxn) == IF pks = <<>> THEN x
+                        ELSE LET x1 == HandleNodes([k \in DOMAIN x \ {"acc"} |-> x[k]], Head(pks), maxn) IN
+                             FoldPk([k \in DOMAIN x1 \cup {"acc"} |-> IF k = "acc" THEN x.acc \o Reported(x1.out) ELSE x1[k]], Tail(pks), maxn)
 MonStep(mm, e) ==
   LET op == e.op  obs == e.obs
       newTalks == [i \in 1..Cardinality(Evs(e, "TalkRequest")) |->
@@ -55,7 +61,15 @@ MonStep(mm, e) ==
                      LET x == obs.hin[SetToSeq(Hin(e, "Request"))[i]] IN
                      [rid |-> x.rid, to |-> x.to, t |-> x.body.t, ds |-> IF x.body.t = "findnode" THEN x.body.ds ELSE <<>>,
                       lookup |-> op.o \in {"lookup", "response_in", "fail", "poke", "advance"}]]
-  IN [mm EXCEPT !.running = @ /\ op.o # "shutdown",
+      \* NODES packets of this step, as abstract records [d, self, n]
+      pks == IF op.o = "response_in" /\ ~Unres(e) /\ op.body.t = "nodes"
+             THEN <<[total |-> op.body.total, recs |-> [i \in 1..Len(op.body.recs) |-> [d |-> op.dists[i], self |-> op.body.recs[i] = "L", n |-> op.body.recs[i]]]]>>
+             ELSE IF op.o = "honest_reply" /\ ~Unres(e)
+             THEN [k \in 1..Len(op.packets) |-> [total |-> op.packets[k].total, recs |-> [i \in 1..Len(op.packets[k].recs) |-> [d |-> op.packets[k].dists[i], self |-> FALSE, n |-> op.packets[k].recs[i]]]]]
+             ELSE <<>>
+      xs1 == [i \in 1..Len(mm.xs) |-> IF pks # <<>> /\ mm.xs[i].rid = op.req THEN [mm.xs[i] EXCEPT !.x = FoldPk(@, pks, mm.cfg.maxnodes)] ELSE mm.xs[i]]
+      xs2 == xs1 \o [i \in 1..Len(newReqs) |-> [rid |-> newReqs[i].rid, to |-> newReqs[i].to, x |-> XA0(newReqs[i].ds), fn |-> newReqs[i].t = "findnode"]]
+  IN [mm EXCEPT !.running = @ /\ op.o # "shutdown", !.xs = xs2,
                 !.talks = @ \o newTalks, !.tresp = @ \o newResp, !.reqs = @ \o newReqs,
                 !.table = obs.table, !.local = obs.local]
 
@@ -104,7 +118,26 @@ C14Viol(mm, e) ==
     THEN {} ELSE {"C14.Pong"}
   ELSE {}
 
-MonViol(mm, m2, e) == C20Viol(mm, m2, e) \cup C14Viol(mm, e)
+\* ------------------------------------------------------------------ C11: NODES answers to lookup requests
+C11Viol(mm, m2, e) ==
+  LET op == e.op  obs == e.obs IN
+  IF ~(op.o \in {"response_in", "honest_reply"} /\ ~Unres(e) /\ (op.o = "honest_reply" \/ op.body.t = "nodes")) THEN {}
+  ELSE IF ~\E i \in 1..Len(mm.xs) : mm.xs[i].rid = op.req /\ mm.xs[i].fn THEN {}
+  ELSE LET i == CHOOSE i \in 1..Len(mm.xs) : mm.xs[i].rid = op.req
+           before == mm.xs[i].x   after == m2.xs[i].x
+           \* what this step must report: the records accepted by the packets that completed the request in this step
+           newAcc == SubSeq(after.acc, Len(before.acc) + 1, Len(after.acc))
+           want == {newAcc[k].n : k \in 1..Len(newAcc)}
+           got == {obs.ev[k].rec : k \in Evs(e, "Discovered")}
+           resp == mm.xs[i].to
+           predBanned == \E k \in 1..Len(m2.xs) : m2.xs[k].to = resp /\ m2.xs[k].x.banned
+           isBanned == \E k \in 1..Len(obs.bans.nodes) : obs.bans.nodes[k] = resp IN
+       (IF got \ want # {} THEN {"C11.UnrequestedAccepted"} ELSE {})
+       \cup (IF want \ got # {} THEN {"C11.RequestedDropped"} ELSE {})
+       \cup (IF isBanned /\ ~predBanned THEN {"C11.HonestBanned"} ELSE {})
+       \cup (IF ~isBanned /\ predBanned THEN {"C11.NotBanned"} ELSE {})
+
+MonViol(mm, m2, e) == C20Viol(mm, m2, e) \cup C14Viol(mm, e) \cup C11Viol(mm, m2, e)
 
 Next ==
   /\ l <= Len(Rec) /\ l' = l + 1
